@@ -343,6 +343,7 @@ class Emitter:
         emit_layout(self)
         emit_fmt_triples(self)
         emit_model_overloads(self)
+        self.n_inverse_pairs = emit_inverse_pairs(self)
         self._emit_pairs = lambda umods: emit_pairs_obligations(self, umods)
         # aggregate
         lines = ['-- GENERATED by emit_lean.py -- do not edit.']
@@ -598,6 +599,129 @@ def emit_model_overloads(em):
     imports = ['PhQVerif.Core.Model'] + ['PhQVerif.Generated.%s' % x for x in sorted(mods)]
     emit_list_with_obligation(em, 'ModelOverloads', 'Entry × Entry × Entry', rows, imports, 'Chk.SameFormula',
                               'ModelOverloads', chunk=100)
+
+
+def subst_sexpr(t, mapping):
+    """Substitute s-expression trees for inputs: mapping[i] is a tree or an int (renamed input)."""
+    h = t[0]
+    if h == 'in':
+        m = mapping[t[1]]
+        return ('in', m, t[2]) if isinstance(m, int) else m
+    if h in ('lit', 'named', 'uninit'):
+        return t
+    if h == 'cast':
+        return ('cast', t[1], subst_sexpr(t[2], mapping))
+    if h == 'powi':
+        return ('powi', t[1], t[2], subst_sexpr(t[3], mapping))
+    if h in sexpr.UNOPS:
+        return (h, t[1], subst_sexpr(t[2], mapping))
+    return (h, t[1], subst_sexpr(t[2], mapping), subst_sexpr(t[3], mapping))
+
+
+def emit_inverse_pairs(em):
+    """Inverse pairs derived from the declared signatures: C(A1..An) together with Aj(.. C ..) whose
+    other arguments are the remaining Ai; one-argument pairs; planar <-> 3-D embeddings."""
+    ctors = {}
+    for e in em.model:
+        m = e['meta']
+        if m['kind'] == 'ctor' and not m.get('unit') and not m.get('ufmt') and m['cls'] in em.class_index \
+                and all(a in em.class_index for a in m['args']) and m['args']:
+            v = e['instances'][0]['fmts'].get('64')
+            if v and v['tree']['t'] == 'leaf':
+                ctors.setdefault(m['cls'], []).append((e, v))
+    rows = []
+    pairs_json = []
+    for cls, lst in sorted(ctors.items()):
+        for (f, fv) in lst:
+            fargs = f['meta']['args']
+            if len(set(fargs)) != len(fargs):
+                continue
+            fouts = [sexpr.parse(o['t']) for o in fv['tree']['outs'] if o['l'].rsplit(':', 1)[1].startswith('num')]
+            # input offsets of f's arguments
+            foff, acc = [], 0
+            for sz in fv['arg_sizes']:
+                foff.append(acc)
+                acc += sz
+            for j, A in enumerate(fargs):
+                for (g, gv) in ctors.get(A, []):
+                    gargs = g['meta']['args']
+                    if sorted(gargs) != sorted([cls] + [a for k, a in enumerate(fargs) if k != j]):
+                        continue
+                    if len(set(gargs)) != len(gargs):
+                        continue
+                    # map g's inputs: inputs of the argument of type cls -> f's outputs; others -> f's inputs
+                    goff, acc2 = [], 0
+                    mapping = {}
+                    ok = True
+                    for name, sz in zip(gargs, gv['arg_sizes']):
+                        if name == cls:
+                            if sz != len(fouts):
+                                ok = False
+                                break
+                            for k in range(sz):
+                                mapping[acc2 + k] = fouts[k]
+                        else:
+                            fi = fargs.index(name)
+                            if fv['arg_sizes'][fi] != sz:
+                                ok = False
+                                break
+                            for k in range(sz):
+                                mapping[acc2 + k] = foff[fi] + k
+                        acc2 += sz
+                    if not ok:
+                        continue
+                    gouts = [sexpr.parse(o['t']) for o in gv['tree']['outs']
+                             if o['l'].rsplit(':', 1)[1].startswith('num')]
+                    if len(gouts) != fv['arg_sizes'][j]:
+                        continue
+                    if len(fargs) == 1 and len(fouts) < fv['arg_sizes'][0]:
+                        continue  # f drops components (3-D -> planar): not invertible by construction
+                    comp = [subst_sexpr(t, mapping) for t in gouts]
+                    if any('acos' in json.dumps(c) for c in comp):
+                        continue
+                    target = [foff[j] + k for k in range(fv['arg_sizes'][j])]
+                    rid = '%s ∘ %s' % (g['id'], f['id'])
+                    pairs_json.append({'f': f['id'], 'g': g['id'], 'j': j, 'f_args': fargs, 'g_args': gargs,
+                                       'f_sizes': fv['arg_sizes'], 'g_sizes': gv['arg_sizes'], 'cls': cls})
+                    rows.append('{ id := %s, comp := [%s], target := [%s] }' % (
+                        lean_str(rid), ', '.join(expr(c) for c in comp), ', '.join(str(t) for t in target)))
+    L = ['-- GENERATED by emit_lean.py -- do not edit.', 'import PhQVerif.Theory.Inverse',
+         'set_option maxRecDepth 100000', 'namespace PhQVerif.Generated', '']
+    for k, r in enumerate(rows):
+        L.append('def InversePairs.p%d : InversePair :=\n  %s' % (k, r))
+    nch = 16
+    chunks = [list(range(c, len(rows), nch)) for c in range(nch)]
+    chunks = [ks for ks in chunks if ks]
+    for c, ks in enumerate(chunks):
+        L.append('def InversePairs.rows_%d : List InversePair := [%s]' % (
+            c, ', '.join('InversePairs.p%d' % k for k in ks)))
+    L.append('def InversePairs.rows : List InversePair :=\n  %s' % (
+        ' ++ '.join('InversePairs.rows_%d' % c for c in range(len(chunks))) or '[]'))
+    L.append('end PhQVerif.Generated')
+    em.write('InversePairs.lean', '\n'.join(L) + '\n')
+    for c, ks in enumerate(chunks):
+        L = ['-- GENERATED by emit_lean.py -- per-pair obligations, discharged by the `inverse_pair` tactic.',
+             'import PhQVerif.Generated.InversePairs', 'namespace PhQVerif.Generated.Obl', '']
+        for k in ks:
+            L.append('theorem C05inv.p%d : InverseOn InversePairs.p%d := by\n  unfold InversePairs.p%d InverseOn\n'
+                     '  inverse_pair' % (k, k, k))
+        t = 'forall_nil\''
+        for k in reversed(ks):
+            t = '(forall_cons\' C05inv.p%d %s)' % (k, t)
+        L.append('theorem C05inv.c%d : ∀ p ∈ InversePairs.rows_%d, InverseOn p :=\n  %s' % (c, c, t))
+        L += ['', 'end PhQVerif.Generated.Obl']
+        em.write('Obl_C05inv_%02d.lean' % c, '\n'.join(L) + '\n')
+    L = ['-- GENERATED by emit_lean.py -- do not edit.'] + [
+        'import PhQVerif.Generated.Obl_C05inv_%02d' % c for c in range(len(chunks))]
+    t = 'C05inv.c0'
+    for c in range(1, len(chunks)):
+        t = '(forall_append\' %s C05inv.c%d)' % (t, c)
+    L += ['namespace PhQVerif.Generated.Obl', '',
+          'theorem C05inv : ∀ p ∈ InversePairs.rows, InverseOn p := by',
+          '  unfold InversePairs.rows', '  exact ' + t, '', 'end PhQVerif.Generated.Obl']
+    em.write('Obl_C05inv.lean', '\n'.join(L) + '\n')
+    json.dump(pairs_json, open(os.path.join(em.cache, 'inverse_pairs.json'), 'w'))
+    return len(rows)
 
 
 def emit_dircast(em):
